@@ -394,39 +394,6 @@ func c16JudgeFermat(c *mon.Ctx, k int) {
 	}
 }
 
-// c16Disturb: "exactly the arithmetic predicate" holds whatever this process linted before. Before its first key, and
-// again between keys, every worker lints objects that have nothing to do with RSA arithmetic - the whole seed pool
-// and the small directed families (qualified-certificate statements with limit values, name constraints, CRLs, OCSP
-// responses, SCT lists ...): shared package-level values that such a run leaves changed (a big.Int constant written
-// through, a table re-sliced) would falsify the verdicts judged afterwards, and the arithmetic reference sees it.
-var (
-	c16DisturbOnce sync.Once
-	c16DisturbObjs []*mon.Obj
-)
-
-func c16Disturb(c *mon.Ctx, i int) {
-	g := lint.GlobalRegistry()
-	c16DisturbOnce.Do(func() {
-		c16DisturbObjs = append(c16DisturbObjs, W.Objs...)
-		dC, tail := directedCount(c), directedSmallTail(c)
-		for k := dC - tail; k < dC; k++ {
-			if o, _ := directedCase(c, k); o != nil {
-				c16DisturbObjs = append(c16DisturbObjs, o)
-			}
-		}
-		for _, o := range c16DisturbObjs {
-			o.Lint(g)
-			c.R.Count("disturbance_objects_linted", 1)
-		}
-	})
-	if i%61 == 0 && len(c16DisturbObjs) > 0 {
-		for k := 0; k < 12; k++ {
-			c16DisturbObjs[(i/61*12+k)%len(c16DisturbObjs)].Lint(g)
-			c.R.Count("disturbance_objects_linted", 1)
-		}
-	}
-}
-
 func init() {
 	mon.Register(&mon.Check{
 		ID:          "C16",
@@ -443,7 +410,7 @@ func init() {
 		},
 		Cases: func(c *mon.Ctx) int { return len(c16Cases) + c16NFermat + c16DateCases() },
 		RunCase: func(c *mon.Ctx, i int) {
-			c16Disturb(c, i)
+			disturb(c, i)
 			if i >= len(c16Cases)+c16NFermat {
 				c16DateLattice(c, i-len(c16Cases)-c16NFermat)
 				return
